@@ -2,6 +2,7 @@ package dir
 
 import (
 	"context"
+	"sync"
 
 	"github.com/glebziz/fs_db/internal/model"
 )
@@ -20,6 +21,10 @@ type generator interface {
 }
 
 type UseCase struct {
+	// m keeps the replacement of a full directory
+	// apart from the reading of the directories.
+	m sync.RWMutex
+
 	maxCount uint64
 
 	dRepo   dirRepository
